@@ -274,6 +274,29 @@ func tdScenarios() []tdScenario {
 			s.settle()
 			tdPump(x, ev, 30, 100*time.Millisecond, 3, true)
 		}},
+		// outgoing stream reset while the last message of the stream is lost: the peer answers "in progress";
+		// T3 retransmits the message, the re-configuration timer retransmits the request, then "performed"
+		{name: "reset-inprogress", opts: tdOpts(false), run: func(x *tdCtx, ev func() bool) {
+			s := x.s
+			st0 := s.openStream(0, 1)
+			s.openStream(1, 1)
+			_ = s.write(0, 1, 700, PayloadTypeWebRTCBinary)
+			_ = s.write(1, 1, 300, PayloadTypeWebRTCBinary)
+			tdPump(x, func() bool { return true }, 30, 100*time.Millisecond, 3, true)
+			if !ev() {
+				return
+			}
+			_ = s.write(0, 1, 400, PayloadTypeWebRTCBinary)
+			for len(s.flight[0]) > 0 {
+				s.drop(0, 0) // the message is lost
+			}
+			if !ev() {
+				return
+			}
+			_ = st0.Close()
+			s.settle()
+			tdPump(x, ev, 40, 400*time.Millisecond, 8, true)
+		}},
 		{name: "shutdown", opts: tdOpts(false), run: func(x *tdCtx, ev func() bool) {
 			s := x.s
 			s.openStream(0, 1)
@@ -368,6 +391,32 @@ func tdTimersClosed(a *Association) bool {
 	return ok
 }
 
+// tdTimerCensus names every rtx timer / the ack timer of a that is not in its final state: closed (a later
+// start() is refused) with no expiry outstanding.
+func tdTimerCensus(a *Association) string {
+	var bad []string
+	names := []string{"t1Init", "t1Cookie", "t2Shutdown", "t3RTX", "tReconfig"}
+	for i, t := range []*rtxTimer{a.t1Init, a.t1Cookie, a.t2Shutdown, a.t3RTX, a.tReconfig} {
+		t.mutex.Lock()
+		if t.state != rtxTimerClosed || t.pending != 0 {
+			bad = append(bad, fmt.Sprintf("%s(state=%d,pending=%d,nRtos=%d)", names[i], t.state, t.pending, t.nRtos))
+		}
+		t.mutex.Unlock()
+	}
+	a.ackTimer.mutex.Lock()
+	if a.ackTimer.state != ackTimerClosed || a.ackTimer.pending != 0 {
+		bad = append(bad, fmt.Sprintf("ackTimer(state=%d,pending=%d)", a.ackTimer.state, a.ackTimer.pending))
+	}
+	a.ackTimer.mutex.Unlock()
+	a.timerMu.Lock()
+	if !a.rackDeadline.IsZero() || !a.ptoDeadline.IsZero() {
+		// (harmless once timerLoop is gone, which the goroutine check establishes; reported for completeness)
+		_ = 0
+	}
+	a.timerMu.Unlock()
+	return strings.Join(bad, ",")
+}
+
 // tdPoke makes the write loop write one packet (a stray COOKIE-ACK, ignored by an established peer).
 func tdPoke(a *Association) {
 	a.lock.Lock()
@@ -410,6 +459,7 @@ type tdResult struct {
 	events  int // events of the base scenario that were executed
 	stopped bool
 	hung    bool
+	late    string // closelate: the packet handled after a.close()
 	elapsed time.Duration
 	wac     int
 }
@@ -547,6 +597,29 @@ func tdRunCrashPoint(t *testing.T, sc tdScenario, k int, inj string, side int, r
 			s.conn[side].failWrite = true
 			s.conn[side].mu.Unlock()
 			go tdPoke(a)
+		case "closelate":
+			// Close() while a packet from the peer has already been read from the conn but not handled yet:
+			// the harness holds a.lock (as any concurrent API call may), the read loop reads the oldest parked
+			// packet and waits for the lock, Close() runs a.close() to its end (conn, timers, closeWriteLoopCh),
+			// then the lock is released and the packet is handled on the closed association.
+			injDone = make(chan struct{})
+			a.lock.Lock()
+			if len(s.flight[peer]) > 0 && !tdChanClosed(s.conn[side].closed) {
+				p := s.flight[peer][0]
+				s.flight[peer] = s.flight[peer][1:]
+				s.logEvent("late packet from=%d id=%d %s", peer, p.id, pktSummary(p))
+				s.onDeliver(p, side)
+				s.conn[side].in <- p.raw
+				for i := 0; i < 2000000 && len(s.conn[side].in) > 0; i++ {
+					runtime.Gosched()
+				}
+				res.late = pktSummary(p)
+			}
+			go func() { defer close(injDone); _ = a.Close() }()
+			for i := 0; i < 2000000 && !tdChanClosed(a.closeWriteLoopCh); i++ {
+				runtime.Gosched()
+			}
+			a.lock.Unlock()
 		case "closebusy":
 			// Close while the write loop has something to send (not a quiescent point)
 			injDone = make(chan struct{})
@@ -567,7 +640,7 @@ func tdRunCrashPoint(t *testing.T, sc tdScenario, k int, inj string, side int, r
 			fail(inj+"-never-returns", fmt.Sprintf("%s() did not return within %v", inj, tdBound))
 		}
 		s.settle() // packets written during the teardown (the ABORT) are on the wire list now
-		modelInj := map[string]string{"close": "close", "closebusy": "close", "abort": "abort", "rfail": "rfail", "rdl": "rfail", "wfail": "wfail"}[inj]
+		modelInj := map[string]string{"close": "close", "closebusy": "close", "closelate": "close", "abort": "abort", "rfail": "rfail", "rdl": "rfail", "wfail": "wfail"}[inj]
 		record := func(sd int, role, minj string, cause int) {
 			for _, c := range x.calls {
 				if c.side != sd || c.pre {
@@ -636,31 +709,6 @@ func tdRunCrashPoint(t *testing.T, sc tdScenario, k int, inj string, side int, r
 			fail("write-after-close", fmt.Sprintf("%d writes attempted on the conn after Close on side %d", res.wac, side))
 		}
 		nEmitted := len(s.wire)
-		// ---- repeated Close
-		for i := 2; i <= 3; i++ {
-			d := make(chan struct{})
-			go func() { defer close(d); _ = a.Close() }()
-			synctest.Wait()
-			if !tdChanClosed(d) {
-				fail("repeated-close-blocks", fmt.Sprintf("Close call number %d did not return", i))
-			}
-		}
-		// Abort after everything is down must return as well (bounded by its two 200 ms waits)
-		if inj == "close" && k%2 == 0 {
-			d := make(chan struct{})
-			go func() { defer close(d); a.Abort("late") }()
-			time.Sleep(500 * time.Millisecond)
-			synctest.Wait()
-			if !tdChanClosed(d) {
-				fail("abort-after-close-blocks", "Abort after Close did not return within 500ms")
-			}
-		}
-		s.settle()
-		for _, p := range s.wire[nEmitted:] {
-			if p.from == side {
-				fail("packet-after-close", fmt.Sprintf("packet emitted by side %d after it was closed: %s", side, pktSummary(p)))
-			}
-		}
 		// ---- the peer
 		peerInj := "close"
 		peerCause := -1
@@ -730,9 +778,52 @@ func tdRunCrashPoint(t *testing.T, sc tdScenario, k int, inj string, side int, r
 		if pw > res.wac {
 			res.wac = pw
 		}
-		// let pending time.After timers of Abort expire so that only real leaks remain
-		time.Sleep(time.Second)
+		// ---- timer census: late packets (to closed conns), 300 virtual seconds; every timer of both associations
+		// must be closed with no expiry outstanding, and no timer callback may have touched them
+		for dir := 0; dir < 2; dir++ {
+			for len(s.flight[dir]) > 0 {
+				s.deliver(dir, 0, false)
+			}
+		}
+		time.Sleep(300 * time.Second) // (also lets the time.After timers of Abort expire: only real leaks remain)
 		synctest.Wait()
+		for sd := 0; sd < 2; sd++ {
+			b := s.assoc[sd]
+			if bad := tdTimerCensus(b); bad != "" {
+				fail("timer-alive-after-teardown", fmt.Sprintf("300 s after the teardown timers of side %d are not closed: %s", sd, bad))
+			}
+			b.lock.RLock()
+			touched := b.willRetransmitReconfig
+			b.lock.RUnlock()
+			if touched {
+				fail("timer-alive-after-teardown", fmt.Sprintf("the re-configuration timer fired on the closed association of side %d", sd))
+			}
+		}
+		// ---- repeated Close
+		for i := 2; i <= 3; i++ {
+			d := make(chan struct{})
+			go func() { defer close(d); _ = a.Close() }()
+			synctest.Wait()
+			if !tdChanClosed(d) {
+				fail("repeated-close-blocks", fmt.Sprintf("Close call number %d did not return", i))
+			}
+		}
+		// Abort after everything is down must return as well (bounded by its two 200 ms waits)
+		if inj == "close" && k%2 == 0 {
+			d := make(chan struct{})
+			go func() { defer close(d); a.Abort("late") }()
+			time.Sleep(500 * time.Millisecond)
+			synctest.Wait()
+			if !tdChanClosed(d) {
+				fail("abort-after-close-blocks", "Abort after Close did not return within 500ms")
+			}
+		}
+		s.settle()
+		for _, p := range s.wire[nEmitted:] {
+			if p.from == side {
+				fail("packet-after-close", fmt.Sprintf("packet emitted by side %d after it was closed: %s", side, pktSummary(p)))
+			}
+		}
 		res.mu.Lock()
 		for _, f := range s.fails {
 			if strings.Contains(f, "prop=C09") {
@@ -809,7 +900,9 @@ func tdRunGuarded(t *testing.T, sc tdScenario, k int, inj string, side int) *tdR
 
 // ---------------------------------------------------------------- the enumeration
 
-func tdInjections() []string { return []string{"close", "closebusy", "abort", "rfail", "rdl", "wfail"} }
+func tdInjections() []string {
+	return []string{"close", "closebusy", "closelate", "abort", "rfail", "rdl", "wfail"}
+}
 
 func TestVerifSimTeardown(t *testing.T) {
 	stride := int(verifEnvInt("VERIF_TD_STRIDE", 1))
@@ -851,7 +944,8 @@ func TestVerifSimTeardown(t *testing.T) {
 				for _, inj := range tdInjections() {
 					for _, side := range sides {
 						idx++
-						if stride > 1 && (idx+seed+rep)%stride != 0 && sc.failKey == "" {
+						always := sc.failKey != "" || (inj == "closelate" && strings.HasPrefix(sc.name, "reset"))
+						if stride > 1 && (idx+seed+rep)%stride != 0 && !always {
 							continue
 						}
 						r := tdRunGuarded(t, sc, k, inj, side)
@@ -916,7 +1010,7 @@ func TestVerifSimTeardown(t *testing.T) {
 		fmt.Fprintf(&ob, " %s:%d", k, outcomes[k])
 	}
 	fmt.Printf("SIMTEARDOWN scenarios=%d crashpoints=%d runs=%d close=%d abort=%d rfail=%d rdl=%d wfail=%d max_return_ms=%d runs_with_write_after_close=%d max_writes_after_close=%d hangs=%d fails=%d points/runs:%s outcomes:%s\n",
-		len(perScen), points, runs, perInj["close"]+perInj["closebusy"], perInj["abort"], perInj["rfail"], perInj["rdl"], perInj["wfail"],
+		len(perScen), points, runs, perInj["close"]+perInj["closebusy"]+perInj["closelate"], perInj["abort"], perInj["rfail"], perInj["rdl"], perInj["wfail"],
 		maxElapsed.Milliseconds(), wacRuns, wacMax, hangs, totalFails, sb.String(), ob.String())
 	if p := os.Getenv("VERIF_OUT"); p != "" {
 		_ = os.Remove(tdCurrentFile())
@@ -1116,4 +1210,242 @@ func TestVerifSimTeardownT1Race(t *testing.T) {
 	fmt.Printf("SIMTDRACE budget=%d attempts=%d stuck=%d hangs=%d callback_first=%d readloop_first=%d other=%d\n", n, tried,
 		counts["STUCK"], counts["HANG"], counts["callback-first"], counts["readloop-first"],
 		tried-counts["STUCK"]-counts["HANG"]-counts["callback-first"]-counts["readloop-first"])
+}
+
+// ---------------------------------------------------------------- closed timers stay closed (component check)
+
+type tdNopObserver struct{ fired int }
+
+func (o *tdNopObserver) onRetransmissionTimeout(int, uint) { o.fired++ }
+func (o *tdNopObserver) onRetransmissionFailure(int)       { o.fired++ }
+func (o *tdNopObserver) onAckTimeout()                     { o.fired++ }
+
+// TestVerifSimTeardownTimerFinal: the model (and closeAllTimers) rely on close() being final for rtxTimer and
+// ackTimer: after close() no sequence of stop() / start() calls may arm the timer again, and no callback fires.
+func TestVerifSimTeardownTimerFinal(t *testing.T) {
+	fails, cases := 0, 0
+	// every sequence over {start, stop, close} of length <= 5 that contains a close: after the first close the
+	// timer must refuse start(), report not running, and never call back
+	ops := []string{"start", "stop", "close"}
+	var seqs [][]string
+	var gen func(prefix []string)
+	gen = func(prefix []string) {
+		if len(prefix) > 0 {
+			seqs = append(seqs, append([]string(nil), prefix...))
+		}
+		if len(prefix) == 5 {
+			return
+		}
+		for _, o := range ops {
+			gen(append(prefix, o))
+		}
+	}
+	gen(nil)
+	for _, kind := range []string{"rtx", "ack"} {
+		for _, seq := range seqs {
+			hasClose := false
+			for _, o := range seq {
+				if o == "close" {
+					hasClose = true
+				}
+			}
+			if !hasClose {
+				continue
+			}
+			cases++
+			var line string
+			synctest.Test(t, func(t *testing.T) {
+				obs := &tdNopObserver{}
+				var rt *rtxTimer
+				var at *ackTimer
+				if kind == "rtx" {
+					rt = newRTXTimer(timerReconfig, obs, noMaxRetrans, 0)
+				} else {
+					at = newAckTimer(obs)
+				}
+				closedSeen := false
+				firedAtClose := 0
+				for i, o := range seq {
+					var started, running bool
+					switch {
+					case kind == "rtx" && o == "start":
+						started = rt.start(10)
+					case kind == "rtx" && o == "stop":
+						rt.stop()
+					case kind == "rtx" && o == "close":
+						rt.close()
+					case kind == "ack" && o == "start":
+						started = at.start()
+					case kind == "ack" && o == "stop":
+						at.stop()
+					case kind == "ack" && o == "close":
+						at.close()
+					}
+					if o == "close" && !closedSeen {
+						closedSeen = true
+						time.Sleep(time.Second) // an expiry that was already under way may still run; it must not call back
+						synctest.Wait()
+						firedAtClose = obs.fired
+					}
+					if kind == "rtx" {
+						running = rt.isRunning()
+					} else {
+						running = at.isRunning()
+					}
+					if closedSeen && (started || running) && line == "" {
+						line = fmt.Sprintf("SIMFAIL prop=C09 a closed %s timer was armed again: after %v the call %s (number %d) returned started=%v, isRunning=%v (closed-timer-restartable) | crashpoint=timer/%s/%s",
+							kind, seq[:i], o, i+1, started, running, kind, strings.Join(seq, "-"))
+					}
+				}
+				time.Sleep(5 * time.Second)
+				synctest.Wait()
+				if closedSeen && obs.fired != firedAtClose && line == "" {
+					line = fmt.Sprintf("SIMFAIL prop=C09 a closed %s timer called back %d times (closed-timer-restartable) | crashpoint=timer/%s/%s",
+						kind, obs.fired-firedAtClose, kind, strings.Join(seq, "-"))
+				}
+				if rt != nil {
+					rt.close()
+				}
+				if at != nil {
+					at.close()
+				}
+			})
+			if line != "" {
+				if fails < 5 {
+					fmt.Println(line)
+				}
+				fails++
+			}
+		}
+	}
+	fmt.Printf("SIMTDTIMER sequences=%d fails=%d\n", cases, fails)
+}
+
+// ---------------------------------------------------------------- the terminal read error survives a read deadline
+
+// TestVerifSimTeardownDeadlineErr: a read deadline is armed while no ReadSCTP is in progress; the stream ends
+// (association closed / aborted / transport failure / ABORT from the peer with a cause / inbound stream reset);
+// the deadline expires afterwards; the application clears the deadline and reads again.  The read must return
+// at once with the terminal error (the one a read before the expiry returns), never the deadline error, never
+// block; after a peer ABORT the error carries the cause.
+func TestVerifSimTeardownDeadlineErr(t *testing.T) {
+	fails, cases := 0, 0
+	for _, kind := range []string{"close", "abort", "rfail", "rdl", "wfail", "peerabort", "peerclose-reset"} {
+		for _, rearm := range []string{"clear", "rearm", "none"} {
+			cases++
+			label := fmt.Sprintf("deadline-err/%s/%s", kind, rearm)
+			var lines []string
+			add := func(key, what string) {
+				lines = append(lines, fmt.Sprintf("SIMFAIL prop=C09 %s (%s) | crashpoint=%s", what, key, label))
+			}
+			func() {
+				defer func() {
+					if r := recover(); r != nil {
+						add("read-blocks-after-deadline", fmt.Sprintf("bubble ends with blocked goroutines: %v", r))
+					}
+				}()
+				synctest.Test(t, func(t *testing.T) {
+					s := newSim(t, tdOpts(false), label)
+					if !s.establish() {
+						add("handshake-failed", "fault-free handshake did not complete")
+						return
+					}
+					a, b := s.assoc[0], s.assoc[1]
+					st := s.openStream(0, 1)
+					pst := s.openStream(1, 1)
+					_ = s.write(1, 1, 100, PayloadTypeWebRTCBinary) // the stream exists on both sides
+					s.runFaultFree(time.Second, 100*time.Millisecond, func() bool { return len(s.recvd[0][1]) == 1 })
+					_ = st.SetReadDeadline(time.Now().Add(5 * time.Second)) // armed, nobody is reading
+					synctest.Wait()
+					reason := "td-cause-1"
+					switch kind {
+					case "close":
+						_ = a.Close()
+					case "abort":
+						a.Abort("local")
+					case "rfail":
+						_ = s.conn[0].Close()
+					case "rdl":
+						_ = s.conn[0].SetReadDeadline(time.Now().Add(-time.Second))
+					case "wfail":
+						s.conn[0].mu.Lock()
+						s.conn[0].failWrite = true
+						s.conn[0].mu.Unlock()
+						tdPoke(a)
+					case "peerabort":
+						d := make(chan struct{})
+						go func() { defer close(d); b.Abort(reason) }()
+						synctest.Wait()
+						s.settle()
+						for len(s.flight[1]) > 0 {
+							s.deliver(1, 0, false)
+						}
+						<-d
+					case "peerclose-reset":
+						_ = pst.Close() // the peer resets its outgoing stream 1: our reads end with io.EOF
+						s.settle()
+						s.runFaultFree(2*time.Second, 100*time.Millisecond, func() bool { return false })
+					}
+					synctest.Wait()
+					// what a read returns now is the terminal error (read it white-box: a real read would cancel the deadline)
+					st.lock.RLock()
+					terminal := st.readErr
+					st.lock.RUnlock()
+					if terminal == nil {
+						add("scenario-broken", "the stream has no terminal error after "+kind)
+						s.closeBoth()
+						return
+					}
+					time.Sleep(10 * time.Second) // the armed deadline expires on the dead stream
+					synctest.Wait()
+					switch rearm {
+					case "clear":
+						_ = st.SetReadDeadline(time.Time{})
+					case "rearm":
+						_ = st.SetReadDeadline(time.Now().Add(time.Hour))
+					}
+					type rres struct {
+						n   int
+						err error
+					}
+					ch := make(chan rres, 1)
+					go func() {
+						n, _, err := st.ReadSCTP(make([]byte, 256))
+						ch <- rres{n, err}
+					}()
+					synctest.Wait()
+					select {
+					case r := <-ch:
+						switch {
+						case r.err == nil:
+							add("read-error-lost-after-deadline", fmt.Sprintf("read returned %d bytes, nil on a dead stream", r.n))
+						case errors.Is(r.err, ErrReadDeadlineExceeded) || errors.Is(r.err, os.ErrDeadlineExceeded):
+							add("read-error-lost-after-deadline", fmt.Sprintf("the terminal error %q was replaced by the deadline error %q", terminal, r.err))
+						case r.err.Error() != terminal.Error():
+							add("read-error-lost-after-deadline", fmt.Sprintf("read returned %q, the terminal error was %q", r.err, terminal))
+						case kind == "peerabort" && !strings.Contains(r.err.Error(), reason):
+							add("abort-cause-lost", fmt.Sprintf("read after a peer ABORT returned %q without the cause %q", r.err, reason))
+						case kind == "peerclose-reset" && !errors.Is(r.err, io.EOF):
+							add("read-error-lost-after-deadline", fmt.Sprintf("read after an inbound stream reset returned %q, not io.EOF", r.err))
+						}
+					default:
+						add("read-blocks-after-deadline", fmt.Sprintf("ReadSCTP blocks on a dead stream (terminal error was %q) after the read deadline expired and was %s", terminal, rearm))
+						// release the reader so that the bubble can end
+						_ = st.SetReadDeadline(time.Now().Add(-time.Second))
+						time.Sleep(time.Second)
+						synctest.Wait()
+					}
+					_ = st.SetReadDeadline(time.Time{})
+					s.closeBoth()
+					time.Sleep(time.Second)
+					synctest.Wait()
+				})
+			}()
+			for _, l := range lines {
+				fmt.Println(l)
+				fails++
+			}
+		}
+	}
+	fmt.Printf("SIMTDDEADLINEERR cases=%d fails=%d\n", cases, fails)
 }
